@@ -4,20 +4,15 @@
 (* for small meshes x every facet subset (boundary and interior) x every       *)
 (* orientation flag on interior facets x sub-domain subsets.                   *)
 (*                                                                             *)
-(* Scope   = "paired" : any subset of the boundary facets, or exactly ONE      *)
-(*                      interior facet (either flag) and nothing else: the     *)
-(*                      facet/owner pairing in the decoder cannot go wrong     *)
-(*           "full"   : every subset, every flag assignment                    *)
-(* Decoder = "today"  : DecodeImpl  (mesh.py:373-396 as it is)                 *)
-(*           "fixed"  : DecodeFixed (owner cells permuted with the facets)     *)
-(* MC_C17.cfg          paired/today : must hold                                *)
-(* MC_C17_oriented.cfg full/today   : violated - finding #9 (named deviation,  *)
-(*                                    goes through the known-finding matching) *)
-(* MC_C17_fixed.cfg    full/fixed   : must hold (EncodeImpl is right; the       *)
-(*                                    deviation is exactly the pairing)        *)
+(* Decoder = "current" : DecodeImpl     (mesh.py:373-398 as it is today)       *)
+(*           "old"     : DecodeImplOld  (the decoder before commit 2ed791f:    *)
+(*                       facets sorted, owner cells not permuted with them)    *)
+(* MC_C17.cfg          current : must hold                                     *)
+(* MC_C17_oriented.cfg old     : regression model - TLC must keep refuting it  *)
+(*                       (harness: old_decoder_refuted_by_tlc)                 *)
 EXTENDS TagCodec
 
-CONSTANTS Scope, Decoder
+CONSTANT Decoder
 Tier == IF "TIER" \in DOMAIN IOEnv THEN IOEnv.TIER ELSE "quick"
 
 \* ---- meshes: [kind, p, t]; bsel = the boundary-facet subsets explored (TRUE = all)
@@ -47,13 +42,9 @@ MemoConn(m) == IF \E i \in 1..NM : MeshSeq[i].m.t = m.t /\ MeshSeq[i].m.kind = m
 Interior(i)  == {f \in DOMAIN ConnTab[i].f2t : ConnTab[i].f2t[f][2] # 0}
 BoundaryF(i) == {f \in DOMAIN ConnTab[i].f2t : ConnTab[i].f2t[f][2] = 0}
 \* interior part: facet -> 0 (absent) / 1 (flag 0) / 2 (flag 1)
-InteriorChoices(i) ==
-  IF Scope = "paired"
-  THEN {[f \in Interior(i) |-> 0]} \cup {[f \in Interior(i) |-> IF f = g THEN v ELSE 0] : g \in Interior(i), v \in {1, 2}}
-  ELSE [Interior(i) -> {0, 1, 2}]
+InteriorChoices(i) == [Interior(i) -> {0, 1, 2}]
 BoundaryChoices(i, icx) ==
-  IF Scope = "paired" /\ \E f \in Interior(i) : icx[f] # 0 THEN {{}}
-  ELSE IF MeshSeq[i].all THEN SUBSET BoundaryF(i)
+  IF MeshSeq[i].all THEN SUBSET BoundaryF(i)
   ELSE {{}, BoundaryF(i), {f \in BoundaryF(i) : f % 3 = 0}, {MinSet(BoundaryF(i))}}
 \* sub-domain subsets: all of them with three boundary configurations, a derived one otherwise
 Cells(i) == 1..Len(MeshSeq[i].m.t)
@@ -74,8 +65,8 @@ Init == /\ mi \in 1..NM /\ ic \in InteriorChoices(mi) /\ tm = <<>> /\ failed = {
 RoundTrip(i, x) ==
   LET c    == ConnTab[i]
       file == ToMeshioImpl(x, c)
-      back == IF Decoder = "today" THEN FromMeshioWith(file, DecodeImpl, MemoConn)
-                                   ELSE FromMeshioWith(file, DecodeFixed, MemoConn)
+      back == IF Decoder = "current" THEN FromMeshioWith(file, DecodeImpl, MemoConn)
+                                     ELSE FromMeshioWith(file, DecodeImplOld, MemoConn)
   IN RoundTripClauses(ProjectAM(x, c, "M"), ProjectAM(back.tm, back.c, "M"))
 
 Choose == /\ tm = <<>>
